@@ -268,11 +268,17 @@ def run_mt(lines):
         os.unlink(path)
 
 
+TRYFAIL_RULE = ("; plus the ENUMERATED family 'tryfail' (vlib/loopgen.py retract_cases, 128 scenarios + 24 'reregister'): iv_fd_register_try fails, the caller "
+                "frees the object or the descriptor number comes to life for another object, then earlier descriptors are unregistered (table "
+                "compaction) right away or from a timer; the library must not touch the released object")
+
+
 def run(tier, seed, proof):
     def nontrivial(log):
         return log.count("LEDGER ") >= 2
     os.environ["IVY_DETECT_LEAKS"] = "1"
-    res = l1.run_property(PROP, tier, seed, proof, FAMILIES, [], SANS, nontrivial, RULE, n_quick=50, n_thorough=800)
+    res = l1.run_property(PROP, tier, seed, proof, FAMILIES, [], SANS, nontrivial, RULE + TRYFAIL_RULE, n_quick=50, n_thorough=800,
+                          extra_cases=lambda tier, seed: [c for c in loopgen.retract_cases(seed) if c[0].startswith(("tryfail", "reregister"))])
     # ledger oracle on the cycles family (re-run deterministically; cheap)
     per = 50 if tier == "quick" else 800
     cases = [(f"cycles-{seed * 100000 + i}", loopgen.scenario(seed * 100000 + i, family="cycles")) for i in range(per)]
